@@ -923,10 +923,16 @@ fn op_response(case: &Value) -> Value {
         _ => {
             let loc = case["location"].as_str().unwrap_or("/some/where?x=1").to_string();
             let legal = http::HeaderValue::from_str(&loc).is_ok();
-            let (r, want) = match kind {
-                "http_response_found" => (dropshot::http_response_found(loc.clone()).and_then(|x| x.to_result()), 302),
-                "http_response_see_other" => (dropshot::http_response_see_other(loc.clone()).and_then(|x| x.to_result()), 303),
-                _ => (dropshot::http_response_temporary_redirect(loc.clone()).and_then(|x| x.to_result()), 307),
+            let l2 = loc.clone();
+            let k2 = kind.to_string();
+            let attempt = crate::quiet(move || match k2.as_str() {
+                "http_response_found" => (dropshot::http_response_found(l2.clone()).and_then(|x| x.to_result()), 302),
+                "http_response_see_other" => (dropshot::http_response_see_other(l2.clone()).and_then(|x| x.to_result()), 303),
+                _ => (dropshot::http_response_temporary_redirect(l2.clone()).and_then(|x| x.to_result()), 307),
+            });
+            let (r, want) = match attempt {
+                Ok(x) => x,
+                Err(p) => return json!({"as_specified": false, "panic": p, "legal": legal}),
             };
             match r {
                 Err(e) => { ok = !legal && e.status_code.as_u16() >= 500; detail.push(json!({"error": e.status_code.as_u16(), "legal": legal})); }
@@ -948,6 +954,8 @@ struct Declared0 {}
 struct Declared1 { #[serde(rename = "x-a")] a: String }
 #[derive(Serialize, JsonSchema)]
 struct Declared2 { #[serde(rename = "x-a")] a: String, #[serde(rename = "x-b")] b: String }
+#[derive(Serialize, JsonSchema)]
+struct DeclaredUpper { #[serde(rename = "X-Upper")] a: String }
 
 /// a zero-sized marker type that serialises to a constant string, and a (therefore zero-sized) header struct made of it
 struct Nosniff;
@@ -982,6 +990,19 @@ fn op_response_headers(case: &Value) -> Value {
             Ok(resp) => {
                 let (status, hs, _) = collect_body(resp);
                 let ok = status == 200 && hs.iter().any(|(k, v)| k == "x-zst" && v == "nosniff");
+                json!({"as_specified": ok, "status": status, "headers": hs})
+            }
+        };
+    }
+    if declared.len() == 1 && declared[0] == "X-Upper" {
+        // a serde name in mixed case: header names are case-insensitive and travel in lower case
+        let mut h = dropshot::HttpResponseHeaders::new(body, DeclaredUpper { a: dval(0) });
+        add(h.headers_mut());
+        return match h.to_result() {
+            Err(e) => json!({"as_specified": false, "error": e.status_code.as_u16()}),
+            Ok(resp) => {
+                let (status, hs, _) = collect_body(resp);
+                let ok = status == 200 && hs.iter().any(|(k, v)| k == "x-upper" && *v == dval(0));
                 json!({"as_specified": ok, "status": status, "headers": hs})
             }
         };
